@@ -291,6 +291,37 @@ pub fn rich(rng: &mut Rng, o: &RichOpts, layout: &Layout) -> DocSpec {
         res_dict.push(("XObject".into(), Val::Dict(xobj_entries.clone())));
     }
     res_dict.push(("ExtGState".into(), Val::dict(vec![("GS1", Val::dict(vec![("Type", Val::name("ExtGState")), ("LW", Val::Int(2))]))])));
+    if o.images {
+        // colour spaces whose parts are indirect objects: an /Indexed space over a padded palette
+        // stream (8 bytes where 6 are needed), an ICC profile with an alternate, a tint function
+        let palette = b.add_stream(vec![], vec![0, 0, 0, 255, 255, 255, 9, 9]);
+        let icc = b.add_stream(vec![("N".into(), Val::Int(3)), ("Alternate".into(), Val::name("DeviceRGB"))], vec![0u8; 12]);
+        let tint = b.add(Val::dict(vec![("FunctionType", Val::Int(2)), ("Domain", Val::ints(&[0, 1])), ("C0", Val::ints(&[0])), ("C1", Val::ints(&[1])), ("N", Val::Int(1))]));
+        let sep = b.add(Val::Arr(vec![Val::name("Separation"), Val::name("Spot"), Val::name("DeviceGray"), Val::r(tint)]));
+        res_dict.push((
+            "ColorSpace".into(),
+            Val::dict(vec![
+                ("CS0", Val::Arr(vec![Val::name("Indexed"), Val::name("DeviceRGB"), Val::Int(1), Val::r(palette)])),
+                ("CS1", Val::Arr(vec![Val::name("ICCBased"), Val::r(icc)])),
+                ("CS2", Val::r(sep)),
+                // four levels: DeviceN over Separation over Indexed over ICCBased
+                (
+                    "CS3",
+                    Val::Arr(vec![
+                        Val::name("DeviceN"),
+                        Val::Arr(vec![Val::name("A"), Val::name("B")]),
+                        Val::Arr(vec![
+                            Val::name("Separation"),
+                            Val::name("S"),
+                            Val::Arr(vec![Val::name("Indexed"), Val::Arr(vec![Val::name("ICCBased"), Val::r(icc)]), Val::Int(1), Val::r(palette)]),
+                            Val::r(tint),
+                        ]),
+                        Val::r(tint),
+                    ]),
+                ),
+            ]),
+        ));
+    }
     let shared_res = b.add(Val::Dict(res_dict.clone()));
 
     // --- page tree -----------------------------------------------------------------------------
